@@ -104,8 +104,10 @@ func (propC20) Gen(r *Rand) *Plan {
 type c20Model struct {
 	v     Val  // type and payload; arrays by value
 	known bool // array content known (false after an in-place mutation through an allowed alias)
-	// edges[x] = true: mutating this handle in place may legitimately change handle x
-	edges map[int]bool
+	// alias class of the list this handle holds: handles of one class may
+	// physically share a list (Assign, construction from a variant); classes
+	// outlive the handles that created them
+	cls int
 }
 
 func (propC20) Exec(p *Plan, x *Ctx) *Outcome {
@@ -121,36 +123,54 @@ func (propC20) Exec(p *Plan, x *Ctx) *Outcome {
 		ms := make([]*c20Model, c20Handles)
 		for i := range hs {
 			hs[i] = variants.EmptyVariant()
-			ms[i] = &c20Model{v: VNull(), known: true, edges: map[int]bool{}}
+			ms[i] = &c20Model{v: VNull(), known: true, cls: -1}
 		}
+		nextCls := 0
+		newCls := func() int { nextCls++; return nextCls }
+		// clsEdges[a][b]: an in-place mutation of a list of class a may legitimately
+		// show through handles of class b (original -> clone: not asserted either way)
+		clsEdges := map[int]map[int]bool{}
 		slices := make([][]*variants.Variant, c20Slices)
 		sliceModel := make([][]Val, c20Slices)
 		inRange := func(h int) bool { return h >= 0 && h < c20Handles }
-		detach := func(h int) {
-			ms[h].edges = map[int]bool{}
-			for _, m := range ms {
-				delete(m.edges, h)
+		aliases := func(h int) int {
+			n := 0
+			for y := 0; y < c20Handles; y++ {
+				if y != h && ms[y].cls == ms[h].cls && ms[h].cls >= 0 {
+					n++
+				}
 			}
+			return n
 		}
 		taint := func(h int) {
-			seen := map[int]bool{h: true}
-			stack := []int{h}
+			if ms[h].cls < 0 {
+				return
+			}
+			reach := map[int]bool{ms[h].cls: true}
+			stack := []int{ms[h].cls}
 			for len(stack) > 0 {
 				c := stack[len(stack)-1]
 				stack = stack[:len(stack)-1]
-				for y := 0; y < c20Handles; y++ {
-					if ms[c].edges[y] && !seen[y] {
-						seen[y] = true
-						ms[y].known = false
-						stack = append(stack, y)
+				for d := 1; d <= nextCls; d++ {
+					if clsEdges[c][d] && !reach[d] {
+						reach[d] = true
+						stack = append(stack, d)
 					}
+				}
+			}
+			for y := 0; y < c20Handles; y++ {
+				if y != h && reach[ms[y].cls] {
+					ms[y].known = false
 				}
 			}
 		}
 		setModel := func(h int, v Val) {
-			detach(h)
 			ms[h].v = v
 			ms[h].known = true
+			ms[h].cls = -1
+			if v.T == "Array" {
+				ms[h].cls = newCls()
+			}
 		}
 		fill := func(vs []Val) []*variants.Variant {
 			a := make([]*variants.Variant, len(vs))
@@ -247,8 +267,7 @@ func (propC20) Exec(p *Plan, x *Ctx) *Outcome {
 			ms[h].known = srcKnown
 			if r.share >= 0 && r.share != h && r.model.T == "Array" {
 				// a variant built from another variant may share its list (not asserted either way)
-				ms[h].edges[r.share] = true
-				ms[r.share].edges[h] = true
+				ms[h].cls = ms[r.share].cls
 			}
 		}
 
@@ -413,7 +432,7 @@ func (propC20) Exec(p *Plan, x *Ctx) *Outcome {
 					a[o.I] = *o.V
 					ms[o.H].v = Val{T: "Array", A: a}
 				}
-				if len(ms[o.H].edges) > 0 {
+				if aliases(o.H) > 0 {
 					out.Probes["mutate_with_alias_edges"]++
 				}
 				mutations++
@@ -439,8 +458,7 @@ func (propC20) Exec(p *Plan, x *Ctx) *Outcome {
 					setModel(o.H, src.v)
 					ms[o.H].known = src.known
 					if src.v.T == "Array" {
-						ms[o.H].edges[o.H2] = true
-						ms[o.H2].edges[o.H] = true
+						ms[o.H].cls = src.cls
 					}
 				}
 			case "assignnil":
@@ -458,10 +476,11 @@ func (propC20) Exec(p *Plan, x *Ctx) *Outcome {
 					ms[o.H].known = src.known
 					// mutating the original is not promised to leave the clone alone;
 					// mutating the clone must leave the original alone
-					ms[o.H2].edges[o.H] = true
-					for y := range src.edges {
-						// whatever may share with the original may equally reach the clone
-						ms[y].edges[o.H] = true
+					if src.v.T == "Array" {
+						if clsEdges[src.cls] == nil {
+							clsEdges[src.cls] = map[int]bool{}
+						}
+						clsEdges[src.cls][ms[o.H].cls] = true
 					}
 					if src.known && !src.v.HasNaN() {
 						if !equalsBoth(i, o.H, o.H2, "clone", true) {
@@ -491,7 +510,7 @@ func (propC20) Exec(p *Plan, x *Ctx) *Outcome {
 			out.Event("%s h=%d", o.Op, o.H)
 			st := NewHasher()
 			for h := 0; h < c20Handles; h++ {
-				st.Str(ms[h].v.T).Int(int64(len(ms[h].v.A))).Int(int64(len(ms[h].edges)))
+				st.Str(ms[h].v.T).Int(int64(len(ms[h].v.A))).Int(int64(aliases(h)))
 			}
 			out.ModelStates = append(out.ModelStates, st.Sum())
 			if !checkAll(i, o) {
